@@ -71,6 +71,7 @@ fn main() {
     "C03" => vprop::c03::run(&cfg),
     "C04" => vprop::c04::run(&cfg),
     "C05" => vprop::c05::run(&cfg),
+    "C06" => vprop::c06::run(&cfg),
     "C07" => vprop::c07::run(&cfg),
     "C10" => vprop::c10::run(&cfg),
     "C19" => vprop::c19::run(&cfg),
